@@ -193,11 +193,12 @@ func (q *checker) tcheckStatement(n *a.Node) error {
 		}
 
 		for _, o := range n.Body() {
-			// TODO: prohibit jumps (breaks, continues), rets (returns, yields)
-			// and retry-calling ? methods while inside an io_bind body.
 			if err := q.tcheckStatement(o); err != nil {
 				return err
 			}
+		}
+		if err := q.tcheckIOManipBody(n.Keyword(), n.Body(), nil); err != nil {
+			return err
 		}
 
 	case a.KIterate:
@@ -304,6 +305,75 @@ func (q *checker) tcheckFuncAssert(n *a.Assert) error {
 		return nil
 	}
 	return fmt.Errorf("check: function assertions are not supported yet")
+}
+
+// tcheckIOManipBody rejects the statements that leave an io_bind,
+// io_forget_history or io_limit body other than by reaching its closing curly
+// brace: rets (returns, yields), jumps (breaks, continues) to a loop that
+// encloses the body and coroutine calls other than "status =? etc?()" (which
+// return or yield on a non-ok status).
+//
+// The generated C code restores the I/O state only at that closing brace, and
+// it saves that state in block-scoped C variables that resuming a suspended
+// coroutine (a C switch jump into the block) would not re-initialize.
+//
+// innerLoops are the loops entered since the start of that body.
+func (q *checker) tcheckIOManipBody(keyword t.ID, body []*a.Node, innerLoops []a.Loop) error {
+	for _, o := range body {
+		q.errFilename, q.errLine = o.AsRaw().FilenameLine()
+
+		switch o.Kind() {
+		case a.KAssign:
+			o := o.AsAssign()
+			if rhs := o.RHS(); (rhs.Operator() == a.ExprOperatorCall) &&
+				rhs.Effect().Coroutine() && (o.Operator() != t.IDEqQuestion) {
+				return fmt.Errorf("check: coroutine call %q inside an %s body is not assigned via \"=?\"",
+					rhs.Str(q.tm), keyword.Str(q.tm))
+			}
+
+		case a.KIf:
+			for o := o.AsIf(); o != nil; o = o.ElseIf() {
+				if err := q.tcheckIOManipBody(keyword, o.BodyIfTrue(), innerLoops); err != nil {
+					return err
+				}
+				if err := q.tcheckIOManipBody(keyword, o.BodyIfFalse(), innerLoops); err != nil {
+					return err
+				}
+			}
+
+		case a.KIOManip:
+			// No-op. A nested body has already been checked, more strictly.
+
+		case a.KIterate:
+			for o := o.AsIterate(); o != nil; o = o.ElseIterate() {
+				if err := q.tcheckIOManipBody(keyword, o.Body(), append(innerLoops, o)); err != nil {
+					return err
+				}
+			}
+
+		case a.KJump:
+			o := o.AsJump()
+			isInner := false
+			for _, l := range innerLoops {
+				isInner = isInner || (l == o.JumpTarget())
+			}
+			if !isInner {
+				return fmt.Errorf("check: %s jumps out of an %s body",
+					o.Keyword().Str(q.tm), keyword.Str(q.tm))
+			}
+
+		case a.KRet:
+			return fmt.Errorf("check: %s inside an %s body",
+				o.AsRet().Keyword().Str(q.tm), keyword.Str(q.tm))
+
+		case a.KWhile:
+			o := o.AsWhile()
+			if err := q.tcheckIOManipBody(keyword, o.Body(), append(innerLoops, o)); err != nil {
+				return err
+			}
+		}
+	}
+	return nil
 }
 
 func (q *checker) tcheckAssert(n *a.Assert) error {
